@@ -88,7 +88,10 @@ func genCaseCachedVotes(c *Ctx) {
 		n := nc.sut
 		tip := "b0"
 		var main []string
-		for i := 0; i < 3; i++ {
+		// the main chain is one block HIGHER than the side branch will be, so that only the
+		// justification of c2 (never the hash tie-break between equal heights) can move the fork
+		// choice to the side branch
+		for i := 0; i < 4; i++ {
 			tip = nc.defBlock(tip, 0, 0, nil)
 			main = append(main, tip)
 		}
@@ -159,6 +162,75 @@ func genCaseCachedVotes(c *Ctx) {
 		nc.close()
 	}
 	c.Distinct(fmt.Sprintf("cachedvotes-%d-%d", c.Seed, c.nOps))
+}
+
+// genCaseRedeliverVsConnect: peers keep announcing blocks the node already has (stored blocks
+// at or below the best height) while new blocks are being connected: whatever ProcessBlock does
+// for a known block, it must not read chain state the block processor is writing.
+func genCaseRedeliverVsConnect(c *Ctx) {
+	nc := newNodeCase(c, "pool", 2, 3, -1, 2)
+	defer nc.close()
+	n := nc.sut
+	tip := "b0"
+	var known []string
+	for i := 0; i < 3; i++ {
+		tip = nc.defBlock(tip, 0, 0, nil)
+		n.processBlock(nc.nm.blocks[tip])
+		nc.delivered[tip] = true
+		known = append(known, tip)
+	}
+	var fresh []string
+	for i := 0; i < 12; i++ {
+		if tip = nc.defBlock(tip, 0, 0, nil); tip == "" {
+			break
+		}
+		fresh = append(fresh, tip)
+	}
+	var mu sync.Mutex
+	done := make(chan struct{})
+	fin := make(chan struct{}, 2)
+	go func() {
+		defer func() { fin <- struct{}{} }()
+		for _, name := range fresh {
+			n.chain.ProcessBlock(cloneBlock(nc.nm.blocks[name]))
+			mu.Lock()
+			known = append(known, name)
+			mu.Unlock()
+		}
+		close(done)
+	}()
+	go func() {
+		defer func() { fin <- struct{}{} }()
+		for i := 0; ; i++ {
+			select {
+			case <-done:
+				return
+			default:
+			}
+			mu.Lock()
+			name := known[i%len(known)]
+			mu.Unlock()
+			n.chain.ProcessBlock(cloneBlock(nc.nm.blocks[name]))
+			c.Count("redeliveries-during-connect")
+		}
+	}()
+	for k := 0; k < 2; k++ {
+		select {
+		case <-fin:
+		case <-time.After(60 * time.Second):
+			c.Fail("C37:call-does-not-return:redeliver-vs-connect", "re-delivery of stored blocks while new blocks are connected: the calls did not return within 60 s")
+			concWedged = true
+			nc.emit("conc redeliver-vs-connect", "ok")
+			return
+		}
+	}
+	n.quiesce()
+	if bh, fc := n.chain.BestBlockHeader().Hash(), n.chain.VerifNodeCasper().BestChain(); bh != fc || (len(fresh) > 0 && bh != nc.nm.blocks[fresh[len(fresh)-1]].Hash()) {
+		c.Fail("C37:redeliver-vs-connect:wrong-best", fmt.Sprintf("after connecting %d blocks while stored blocks were re-delivered: best block %s, fork choice %s", len(fresh), nc.nm.name(bh), nc.nm.name(fc)))
+	}
+	c.Count("redeliver-vs-connect-cases")
+	nc.emit("conc redeliver-vs-connect", "ok")
+	c.Distinct(fmt.Sprintf("redeliver-%d-%d", c.Seed, c.nOps))
 }
 
 // genCaseSubmitVsConnect: a transaction is re-submitted in a tight loop while the block that
@@ -320,6 +392,9 @@ func genCaseConc(c *Ctx, mode string) {
 		return
 	case 2:
 		genCaseCachedVotes(c)
+		return
+	case 3:
+		genCaseRedeliverVsConnect(c)
 		return
 	}
 	// constant parameters: see newNodeEnv (no write to the global parameters between cases)
